@@ -2,6 +2,7 @@ import CarModel.Proofs.Finalize
 import CarModel.Proofs.FactsTie
 import CarModel.Proofs.InspectFull
 import CarModel.Proofs.Cli
+import CarModel.Proofs.Session
 /-
 C05 — Finalized output is a well-formed, self-describing CAR that matches what was put.
 -/
@@ -41,6 +42,32 @@ theorem finalize_layout (o : WOpts) (roots : Option (List Cid)) (s : Store) (log
     ∃ evs, s.finalizeEvs o = some evs ∧
       applyWrites s.file evs = layoutV2 o.dataPad o.indexPad (payload roots log) true o.storeIdentity ix.bytes :=
   finalize_file o roots s log ix inv hopen hv2 hix h64
+
+/-- **Any put history, from the first byte**: a fresh read-write blockstore in CARv2 mode under any
+    options, any list of blocks put one after the other (whatever each Put answers), then Finalize:
+    Finalize returns ok and the file is exactly pragma ++ header ++ data padding ++ the CARv1 payload of
+    the given roots and of the blocks the reference log keeps of the list — the C04 rules: a key
+    already stored is skipped, identity CIDs follow the IdStore option, an over-long CID is refused —
+    in put order ++ index padding ++ the flattened index. No invariant is assumed: it is established
+    from `create` by induction over the puts (`puts_refines`). -/
+theorem session_file_is_layout_of_log (o : WOpts) (roots : Option (List Cid)) (bs : List Block) (ix : Index)
+    (hv2 : o.v1 = false)
+    (hix : ((Store.create .blockstore o roots).1.puts o bs).idx.flatten o.codec = some ix)
+    (h64 : 51 + o.dataPad + o.indexPad + ((Store.create .blockstore o roots).1.puts o bs).pos < 2 ^ 64) :
+    (((Store.create .blockstore o roots).1.puts o bs).step o .finalize).2.1 = .ok ∧
+    (((Store.create .blockstore o roots).1.puts o bs).step o .finalize).1.file
+      = layoutV2 o.dataPad o.indexPad
+          (payload roots (Spec.puts o { api := .blockstore, roots := roots.getD [] } bs).log)
+          true o.storeIdentity ix.bytes :=
+  session_file o roots bs ix hv2 hix h64
+
+/-- what the reference log keeps, on a small case: a repeated key is kept once, an identity block is
+    dropped under the default options (sanity of the right-hand side above) -/
+example : (Spec.puts {} { api := .blockstore, roots := [] }
+    [⟨⟨1, 0x55, 0x12, [1]⟩, [7]⟩, ⟨⟨1, 0x71, 0x12, [1]⟩, [7]⟩, ⟨⟨1, 0x55, 0, [9]⟩, [9]⟩, ⟨⟨1, 0x55, 0x12, [2]⟩, [8]⟩]).log
+      = [⟨⟨1, 0x55, 0x12, [1]⟩, [7]⟩, ⟨⟨1, 0x55, 0x12, [2]⟩, [8]⟩] := by
+  simp [Spec.puts, Spec.putOne, Spec.idRule, Spec.stored, Spec.sameKey, Cid.isIdentity, Cid.byteLen, Cid.bytes, Cid.mhBytes,
+    uvarint_small]
 
 /-- The same at the API level: `Finalize()` on the blockstore returns ok and the file is that layout. -/
 theorem blockstore_finalize (o : WOpts) (roots : Option (List Cid)) (s : Store) (log : List Block) (ix : Index)
